@@ -11,6 +11,8 @@ mod segment_intersection;
 mod signed_area;
 pub mod subdivide_segments;
 pub mod sweep_event;
+#[cfg(feature = "verif-hooks")]
+pub mod verif_hooks;
 
 pub use helper::{BoundingBox, Float};
 
